@@ -56,7 +56,9 @@ fn main() {
     }
     let mut ctx = Ctx::new(&prop, tier, seed, replay);
     ctx.budget_s = budget;
-    let ok = props::dispatch(&prop, &ctx, &rest);
+    // leaked on purpose: the stall watchdog thread (out.rs) needs it for the life of the process
+    let ctx: &'static Ctx = Box::leak(Box::new(ctx));
+    let ok = props::dispatch(&prop, ctx, &rest);
     if !ok {
         eprintln!("unknown property {}", prop);
         std::process::exit(2);
